@@ -369,10 +369,22 @@ def check_model(cfg):
     sk = skip_reason(cfg, ref)
     if sk:
         return "skipped:" + sk, viol, {"skipped_not_a_model": 1}, None
-    w = make_world(cfg, ref)
+    live = bool(cfg.get("live_fix"))
+    if live:
+        # the fixed counts are assigned on the live model (built without them): same demands as for a model built at once
+        _bad = bad
+
+        def bad(sig, **detail):     # noqa
+            _bad(dict(sig, live_fix="yes"), **detail)
+    w = make_world(cfg, dict(ref, fix_st=None, fix_sv=None) if live else ref)
     must, may = ref["must"], ref["may"]
     try:
         m = W.build(w)
+        if live:
+            if ref["fix_st"] is not None:
+                W.apply_live(m, ["set", "st", "fixed_nb_of_instances", W.Q(ref["fix_st"], "dimensionless")])
+            if ref["fix_sv"] is not None:
+                W.apply_live(m, ["set", "sv", "fixed_nb_of_instances", W.Q(ref["fix_sv"], "dimensionless")])
     except Exception as ex:  # noqa
         reason = classify_error(ex)
         msg = str(ex)[:300]
@@ -741,6 +753,29 @@ def enumerate_space(tier):
     add_slice("E writer reached through two usage patterns with disjoint windows", items,
               f"loads({len(loadsE)}) x gap before the second window(2: 1 h, 4 h) x amounts(3) x durations(3) x "
               f"replication(2) x base({3 if thorough else 2}) x mixes({3 if thorough else 2})")
+    # F — the fixed counts of B and D assigned on the live model instead of at construction
+    items = []
+    i = 0
+    for ld in (loadsD if thorough else [[1], [3, 0], [0, 7, 1], [1, 3, 0, 7]]):
+        for fx in ("peak-1", "peak", "larger"):
+            for scap in ("1TB", "1GB", "2xamount"):
+                for b in bases:
+                    i += 1
+                    s = BUILDING_SERVERS[i % len(BUILDING_SERVERS)]
+                    c = cfg_of(ld, amount=amounts[i % 3], dur=durs[(i // 3) % 3], rep=1 + 2 * (i % 2), base=b, scap=scap,
+                               fix_st=fx, stype=s[0], cap=s[1], fix_sv="none")
+                    c["live_fix"] = 1
+                    items.append(c)
+    for ld in (loadsB if thorough else [[1], [7, 0], [1, 3, 0, 7]]):
+        for (stype, cap, fx) in server_combos():
+            if fx != "none":
+                i += 1
+                c = cfg_of(ld, stype=stype, cap=cap, fix_sv=fx, amount=amounts[i % 3], dur=durs[i % 3], base="small")
+                c["live_fix"] = 1
+                items.append(c)
+    add_slice("F fixed counts assigned on the live model", items,
+              "storage: loads x fixed count(3) x storage capacity(3) x base(3), replication / amount / duration cycled; "
+              "server: loads x every (type, capacity class, fixed count) combination with a fixed count")
     # de-duplicate (slices overlap on a few points)
     seen, out = set(), []
     for c in cfgs:
